@@ -3,3 +3,4 @@ package pngmeta
 // Bounds of the arbitrary-byte harnesses (quick tier values; the thorough tier
 // overrides them through the engine's constant hook).
 var verifC07N = 40
+var verifC08N = 24
